@@ -20,6 +20,7 @@ import (
 	"path/filepath"
 	"sort"
 	"strings"
+	"unicode/utf8"
 
 	"golang.org/x/tools/go/ssa"
 )
@@ -412,7 +413,7 @@ type Interp struct {
 	LazyFields func(key string) (AV, bool)
 	// EmptyMaps: symbolic map-valued locations (by key) that hold an empty map when first read
 	EmptyMaps func(key string) bool
-	W *World
+	W         *World
 	// Fields: abstract contents of symbolic locations, keyed "name.field"
 	Fields map[string]AV
 	// OnCall may return enumerated answers for a call (oracle); nil = default handling.
@@ -692,6 +693,17 @@ func constOf(a AV) (constant.Value, bool) {
 		return c.V, true
 	case Zero:
 		if c.T != nil {
+			// the zero value of a type parameter constrained to integer (or string) types is 0 (or "")
+			if tp, isTP := c.T.(*types.TypeParam); isTP {
+				if allTermsInteger(tp) {
+					return constant.MakeInt64(0), true
+				}
+				if core := coreOfTypeParam(tp); core != nil {
+					if b, ok := core.(*types.Basic); ok && b.Info()&types.IsString != 0 {
+						return constant.MakeString(""), true
+					}
+				}
+			}
 			if b, ok := c.T.Underlying().(*types.Basic); ok {
 				switch {
 				case b.Info()&types.IsBoolean != 0:
@@ -835,6 +847,12 @@ func (in *Interp) load(st *State, addr AV, t types.Type, pos token.Pos) AV {
 			}
 		}
 	case ElemRef:
+		// a byte of a constant string
+		if str, isStr := asString(a.Base); isStr {
+			if i, ok := asInt(a.Idx); ok && i >= 0 && int(i) < len(str) {
+				return mkInt(int64(str[i]))
+			}
+		}
 		if r, ok := a.Base.(Ref); ok {
 			if o := st.heap[r.ID]; o != nil && o.Kind == 'a' {
 				if i, ok := asInt(a.Idx); ok && int(i) < len(o.Elems) && i >= 0 {
@@ -1149,6 +1167,19 @@ func (in *Interp) instrs(st *State, b, pred *ssa.BasicBlock, idx int, k kont) {
 		case *ssa.Lookup:
 			x := in.val(st, ins.X)
 			key := in.val(st, ins.Index)
+			// a byte of a constant string
+			if str, isStr := asString(x); isStr && !ins.CommaOk {
+				if i, ok := asInt(key); ok {
+					if i >= 0 && int(i) < len(str) {
+						in.set(st, ins, mkInt(int64(str[i])))
+					} else {
+						st.Events = append(st.Events, Event{Kind: "panic", Note: "index out of range", Pos: ins.Pos(), Stack: st.stackString()})
+						k(st, nil, true)
+						return
+					}
+					continue
+				}
+			}
 			if mv, ok := x.(MapV); ok {
 				kk := key
 				if d, isD := kk.(Dyn); isD {
@@ -1778,7 +1809,11 @@ func (in *Interp) applyValue(st *State, callee AV, args []AV, ins *ssa.Call, k k
 		fn := bodyOf(c.Fn)
 		ctx.Fn = fn
 		if r, ok := foldPure(fn, args); ok {
-			k(st, []AV{r}, false)
+			if t, isT := r.(Tuple); isT {
+				k(st, t.Vs, false) // a function with several results
+			} else {
+				k(st, []AV{r}, false)
+			}
 			return
 		}
 		if rts == nil {
@@ -1884,6 +1919,20 @@ func foldPure(fn *ssa.Function, args []AV) (AV, bool) {
 				n, okn := asInt(args[3])
 				if ok && okn {
 					return mkString(strings.Replace(a[0], a[1], a[2], int(n))), true
+				}
+			}
+		}
+	case "unicode/utf8":
+		switch fn.Name() {
+		case "DecodeRuneInString":
+			if a, ok := strs(); ok && len(a) == 1 {
+				r, w := utf8.DecodeRuneInString(a[0])
+				return Tuple{Vs: []AV{mkInt(int64(r)), mkInt(int64(w))}}, true
+			}
+		case "RuneLen":
+			if len(args) == 1 {
+				if n, ok := asInt(args[0]); ok {
+					return mkInt(int64(utf8.RuneLen(rune(n)))), true
 				}
 			}
 		}
